@@ -42,6 +42,9 @@ RULE = ("streams: boundary (hand-written: no GT, no estimates, all same label, d
         "ALLOW_ANY, matchable_thresholds, target_labels), none of which may change an identity-based pairing or the label agreement; "
         "the small space over the label set {0, UNKNOWN, FP} (<= 1 object exhaustively, 3 objects sampled; thorough: <= 2 / 1000) and "
         "boundary cases with ANIMAL / TRAFFIC_LIGHT members; non-trivial = at least one real pair and >= 3 objects; "
+        "edge streams: in 12 % of the cases ONE uuid is spelled as the empty string on both sides (falsy but not None: must pair like any "
+        "other uuid, never be rejected), and a quarter of the result lists reach ClassificationAccuracy / ClassificationMetricsScore nested "
+        "the way get_scene_result nests them (a leading empty list + three per-frame lists, so that lists beyond the second count); "
         "second correspondence: ClassificationAccuracy on hand-made result lists with arbitrary num_ground_truth")
 
 _cache = {}
@@ -83,9 +86,13 @@ def _acc_obs(a):
 
 
 def _nest(lst, k):
-    """the manager hands per-frame lists (a list of lists); k=None: flat list, else split at k"""
+    """the manager hands per-frame lists (a list of lists); k=None: flat list, "mgr": the shape get_scene_result builds -- a leading empty
+    list followed by one list per frame (three here, so that lists beyond the second matter), else split at k"""
     if k is None:
         return lst
+    if k == "mgr":
+        n = len(lst)
+        return [[], lst[: n // 3], lst[n // 3: (2 * n) // 3], lst[(2 * n) // 3:]]
     k = min(k, len(lst))
     return [lst[:k], lst[k:]]
 
@@ -134,7 +141,10 @@ def _mk(rng, mode, uf, ests, gts, stream):
     used = [o[2] for o in ests + gts]
     n = len(ests)
     case = {"mode": mode, "uf": uf, "ests": ests, "gts": gts, "targets": _targets(rng, used),
-            "nest": rng.choice([None, None, 0, 1, max(1, n // 2), n]), "stream": stream}
+            "nest": rng.choice([None, None, 0, 1, max(1, n // 2), n, "mgr", "mgr"]), "stream": stream}
+    # a falsy-but-valid uuid: ONE uuid of the case is spelled "" on both sides (the matchers must only reject None)
+    us = sorted({o[0] for o in ests + gts if o[0] is not None})
+    case["u_empty"] = rng.choice(us) if us and rng.random() < 0.12 else None
     # representation: which ground truths carry a ROI (a dataset annotation has one, the classifier's output has none), the
     # spelling of every label name / its attributes (seeded), and the keyword arguments the manager hands to get_object_results
     r = rng.random()
@@ -396,7 +406,8 @@ class PipelineCorr(Corr):
                 name = r.choice(names[lab.name])
                 label = E["Label"](lab, name) if attrs is None else E["Label"](lab, name, list(attrs))
             roi = (8 * k, 4, 10 + k, 10) if k in rois else None
-            objs.append(E["Obj"](100, E["cams"][c], 1.0, label, roi, None if u is None else f"u{u}"))
+            uuid = None if u is None else ("" if u == case.get("u_empty") else f"u{u}")
+            objs.append(E["Obj"](100, E["cams"][c], 1.0, label, roi, uuid))
         return objs
 
     def run_impl(self, case):
@@ -629,8 +640,11 @@ class PipelineCorr(Corr):
              "gt_with_roi": {"none": 0, "first_gt": 0, "only_later_gts": 0}, "aliased_names_or_attributes": 0,
              "keyword_arguments": {"not_passed": 0, "policy_DEFAULT_or_absent": 0, "policy_ALLOW_UNKNOWN": 0, "policy_ALLOW_ANY": 0,
                                    "matchable_thresholds": 0, "target_labels": 0},
-             "objects_labelled_unknown": 0, "objects_labelled_fp": 0, "objects_labelled_animal_or_traffic_light": 0}
+             "objects_labelled_unknown": 0, "objects_labelled_fp": 0, "objects_labelled_animal_or_traffic_light": 0,
+             "one_uuid_spelled_as_the_empty_string": 0, "results_nested_like_the_manager_does(empty+3_lists)": 0}
         for c, o in zip(cases, obs):
+            d["one_uuid_spelled_as_the_empty_string"] += c.get("u_empty") is not None
+            d["results_nested_like_the_manager_does(empty+3_lists)"] += c.get("nest") == "mgr"
             roi = c.get("gt_roi") or []
             d["gt_with_roi"]["none" if not roi else ("first_gt" if 0 in roi else "only_later_gts")] += 1
             d["aliased_names_or_attributes"] += c.get("rep") is not None
@@ -689,7 +703,7 @@ class ScoreCorr(Corr):
                 gl = None if r < 0.25 else (el if r < 0.7 else rng.choice([0, 1, 2, FP_LABEL]))
                 res.append([el, gl])
             out.append({"results": res, "num_gt": rng.choice([0, 0, 1, m, m, max(0, m - 1), m + 1, rng.randint(0, 15)]),
-                        "nest": rng.choice([None, 0, 1, m])})
+                        "nest": rng.choice([None, 0, 1, m, "mgr"])})
         out.insert(0, {"results": [], "num_gt": 0, "nest": None})
         out.insert(1, {"results": [], "num_gt": 3, "nest": None})
         out.insert(2, {"results": [[0, 0]], "num_gt": 0, "nest": None})
@@ -752,12 +766,15 @@ class ScoreCorr(Corr):
             d["tp_gt_num_gt"] += o["tp"] > o["g"]
             d["undefined_any"] += any(_undef(x) for x in o["s"])
             d["nested_input"] += c["nest"] is not None
+        d["nested_like_the_manager_does(empty+3_lists)"] = sum(1 for c in cases if c["nest"] == "mgr")
         return d
 
 
 class C11(Prop):
     id = "C11"
     props_file = "Props/C11.v"
+    # redundant tie (core.gen_tie): these functions, translated from the source on every run, equal the hand model for all inputs
+    gen_tie_theorems = ['GenTie_calculate_tp_fp', 'GenTie_calculate_tp_fp_outside', 'GenTie_calculate_accuracy', 'GenTie_calculate_precision_recall', 'GenTie_calculate_f1score', 'GenTie_calculate_f1score_outside', 'GenTie_ClassificationAccuracy___init__', 'GenTie_ClassificationAccuracy___init___outside', 'GenTie__summarize', 'GenTie__get_fp_object_results', 'GenTie__get_object_results_with_id', 'GenTie__get_object_results_for_tlr']
     gen_files = []
     design_ref = "DESIGN.md section 4, C11"
     technique = ("Rocq proof about an executable Gallina model of the two identity-based matchers (nested loops with list copies, "
